@@ -6,13 +6,13 @@ import WuffsVerif.Model.CallSeq
 
   reset <fill> <sizeof> <vmajor> <vminor> <methods>      -> ok
       fill 0 = zeroed memory, else every byte of the object is <fill>
-      methods: `;`-separated  <p|i|c>,<n|s|o>,<coroID>,<derived01>,<susp01>,<argspecs>
+      methods: `;`-separated  <p|i|c>,<n|s|o>,<coroID>,<derived01>,<susp01>,<emptybody01>,<argspecs>
       argspecs: `/`-separated  p | n | r<lo|_>..<hi|_>   (or `-` for none)
   init <selfnull01> <sizeofArg> <version> <options>       -> <status> <magic> <active>
   call <idx> <selfnull01> <args> <hint>                   -> <ret> <magic> <active>
       args: `/`-separated  p0 (NULL) | p1 | n<int> | o   (or `-`)
       hint: the status the body produces if it runs (`ok`, `@…`, `$…`, `#…`), `v`/`z`/`-` for non-status
-  tmpl <p|i|c> <n|s|o> <coroID> <derived> <susp01> <bodyEndsWithReturn01> <args>   -> feature vector
+  tmpl <p|i|c> <n|s|o> <coroID> <derived> <susp01> <bodyEndsWithReturn01> <emptybody01> <args>   -> feature vector
       derived: `,`-separated r.<name> | w.<name> (or `-`); args: `/`-separated <name>:<argspec> (or `-`)
   tmplinit                                                -> initializer event sequence
   cseq <gif|png> <cs> <dic|dfc|df|tmm|rf> <resumed01> <cls> <cs'>   -> rejected | allowed <cs'> | unexpected <cls> <cs'>
@@ -57,15 +57,16 @@ def parseOut (s : String) : Option (Bool × Bool) :=
 
 def parseMethod (s : String) : Option Method :=
   match s.splitOn "," with
-  | [e, o, cid, dv, sp, as] => do
+  | [e, o, cid, dv, sp, eb, as] => do
     let eff ← parseEffect e
     let (ho, os) ← parseOut o
     let c ← cid.toNat?
     let d ← parseBool dv
     let p ← parseBool sp
+    let b ← parseBool eb
     let a ← parseArgSpecs as
     pure { effect := eff, hasOut := ho, outIsStatus := os, coroID := c, args := a, derived := d,
-           suspPoints := p }
+           suspPoints := p, emptyBody := b }
   | _ => none
 
 def parseArgVal (s : String) : Option ArgVal :=
@@ -108,8 +109,8 @@ def hintBody (h : String) : BodyRes :=
 
 def showRet (r : Ret) (hint : String) : String :=
   match r with
-  | .zero => "z"
-  | .value => "v"
+  | .zero => if hint == "-" then "-" else "z"
+  | .value => if hint == "-" then "-" else "v"
   | .st .ok => if hint == "ok" then "ok" else "body-ran:" ++ hint
   | .st (.err (.user _)) | .st (.note _) | .st (.susp _) =>
     if protocolOnly.contains hint || hint == "ok" || hint == "v" || hint == "z" || hint == "-"
@@ -206,17 +207,19 @@ def c08Step (st : DState) (l : List String) : DState × String :=
         ({ st with o := o' }, showRet r hint ++ " " ++ showObj o')
       else (st, "bad-op")
     | _, _, _ => (st, "bad-op")
-  | ["tmpl", e, o, cid, dvs, sp, ber, args] =>
+  | ["tmpl", e, o, cid, dvs, sp, ber, eb, args] =>
     let r : Option String := do
       let eff ← parseEffect e
       let (ho, os) ← parseOut o
       let c ← cid.toNat?
       let p ← parseBool sp
       let b ← parseBool ber
+      let ebb ← parseBool eb
       let dv ← if dvs == "-" then some [] else (dvs.splitOn ",").mapM parseDerived
       let na ← if args == "-" then some [] else (args.splitOn "/").mapM parseNamedArg
       let m : Method := { effect := eff, hasOut := ho, outIsStatus := os, coroID := c,
-                          args := na.map (·.2), derived := !dv.isEmpty, suspPoints := p }
+                          args := na.map (·.2), derived := !dv.isEmpty, suspPoints := p,
+                          emptyBody := ebb }
       pure (shapeOfMethod m (na.map (·.1)) dv b)
     (st, r.getD "bad-op")
   | ["tmplinit"] => (st, initShape)
